@@ -144,6 +144,44 @@ func (e *Engine) libModel(fr *frame, ins ssa.Instruction, name string, fn *ssa.F
 	case "(*os.File).Close":
 		use()
 		return nilErr, reach, true
+	case "github.com/lunixbochs/struc.PackWithOptions", "github.com/lunixbochs/struc.Pack":
+		// struc.Pack*(w io.Writer, data interface{}[, options]): on success exactly the packed size of the
+		// struct (sum of its fixed-size fields) is written to w; the bytes themselves are not modelled
+		// here (unconstrained), nor is which error is returned
+		mi, ok := cc1(ins).(*ssa.MakeInterface)
+		wv, okw := args[0].(IfaceVal)
+		if !ok || !okw {
+			return nil, reach, false
+		}
+		pt, ok := mi.X.Type().(*types.Pointer)
+		if !ok {
+			return nil, reach, false
+		}
+		size, ok := packedSize(pt.Elem())
+		if !ok {
+			return nil, reach, false
+		}
+		use()
+		bt := e.w.Types["bytes"].Scope().Lookup("Buffer").Type()
+		bpt := types.NewPointer(bt)
+		st := under(bt).(*types.Struct)
+		pv := e.asPtr(Sc{wv.Ref, SRef}, bpt)
+		e.needStrOp("struc.packok", []string{SI64}, SBool)
+		e.packCalls++
+		okc := app("struc.packok", bvLit(uint64(e.packCalls), 64))
+		for i := 0; i < st.NumFields(); i++ {
+			if st.Field(i).Name() == "buf" {
+				fp := pv.field(i, "buf")
+				cur := e.load(heap, fp, st.Field(i).Type()).(SliceVal)
+				src := e.alloc()
+				c := e.comp(bytesT, []pathElem{{field: -1}}, "", SI8)
+				heap[c.key] = e.sc.define("H_"+c.key, c.sort, sto(e.heapGet(heap, c), src, e.sc.declare("packed", arrSort(SI64, SI8))))
+				nv := e.appendRaw(cur, SliceVal{src, bvLit(0, 64), bvLit(uint64(size), 64)}, byteT, heap, false, "")
+				e.store(heap, fp, st.Field(i).Type(), nv)
+			}
+		}
+		errv := e.iteVal(okc, nilErr, IfaceVal{Tag: e.tagOf(types.Universe.Lookup("error").Type()), Ref: e.alloc(), Str: "str_empty", BV: bvLit(0, 64)})
+		return errv, reach, true
 	case "(*os.File).Write":
 		use()
 		p := args[1].(SliceVal)
@@ -192,4 +230,34 @@ func (e *Engine) mapEpoch(heap Heap, dv IfaceVal) int {
 	id := len(e.epochs) + 1
 	e.epochs[key] = id
 	return id
+}
+
+
+func cc1(ins ssa.Instruction) ssa.Value {
+	if ci, ok := ins.(ssa.CallInstruction); ok && len(ci.Common().Args) > 1 {
+		return ci.Common().Args[1]
+	}
+	return nil
+}
+
+// packedSize: the number of bytes struc writes for a struct of fixed-size integer and byte-array fields.
+func packedSize(t types.Type) (int, bool) {
+	st, ok := under(t).(*types.Struct)
+	if !ok {
+		return 0, false
+	}
+	n := 0
+	for i := 0; i < st.NumFields(); i++ {
+		ft := st.Field(i).Type()
+		if b := bitsOf(ft); b > 0 {
+			n += b / 8
+			continue
+		}
+		if at, ok := under(ft).(*types.Array); ok && bitsOf(at.Elem()) == 8 {
+			n += int(at.Len())
+			continue
+		}
+		return 0, false
+	}
+	return n, true
 }
